@@ -34,7 +34,7 @@ MCInit == InitFor(Role) /\ nPeer = 0 /\ nUser = 0
 
 MCPeerSend == \E fr \in Frames :
   /\ nPeer < PeerBudget /\ sock = "open" /\ st # 4
-  /\ PeerSend(<<fr>>) /\ nPeer' = nPeer + 1 /\ UNCHANGED nUser
+  /\ PeerSend(<<fr>>, 2) /\ nPeer' = nPeer + 1 /\ UNCHANGED nUser
 MCArrive == \E n \in 1..2 : Arrive(n) /\ UNCHANGED <<nPeer, nUser>>
 MCPeerFin == sock = "open" /\ st # 4 /\ PeerFin /\ UNCHANGED <<nPeer, nUser>>
 MCUser == \E it \in UserItems :
@@ -45,7 +45,7 @@ Sources == {"none", "conn", "frame", "eof", "user", "timer"}
 MCIterate == \E rcv \in BOOLEAN, src \in Sources, inv \in BOOLEAN, fail \in BOOLEAN :
   /\ (evq # <<>> => (~rcv /\ src = "none"))            \* pinned loop shape: poll only when nothing is pending
   /\ (inv \/ fail) => Faults
-  /\ Iterate(rcv, src, <<0, 0>>, <<0, 0>>, inv, fail)
+  /\ \E mi \in {<<>>, <<[k |-> "MSG", f |-> <<0>>]>>} : Iterate(rcv, src, <<0, 0>>, <<0, 0>>, inv, fail, mi)
   /\ UNCHANGED <<nPeer, nUser>>
 
 MCNext == MCPeerSend \/ MCArrive \/ MCPeerFin \/ MCUser \/ MCTick \/ MCIterate
